@@ -816,6 +816,8 @@ def MatchExpr(e, m, tks, result = None):
     elif isinstance(e, ExprOp):
         if not isinstance(m, ExprOp):
             return False
+        if e.op != m.op or len(e.args) != len(m.args):
+            return False
         for a1, a2 in zip(e.args, m.args):
             r = MatchExpr(a1, a2, tks, result)
             if r == False:
@@ -825,6 +827,11 @@ def MatchExpr(e, m, tks, result = None):
         if not isinstance(m, ExprMem):
             return False
         if e.size != m.size:
+            return False
+        if isinstance(e.segm, Expr) and isinstance(m.segm, Expr):
+            if MatchExpr(e.segm, m.segm, tks, result) is False:
+                return False
+        elif e.segm != m.segm:
             return False
         return MatchExpr(e.arg, m.arg, tks, result)
     elif isinstance(e, ExprSlice):
@@ -845,6 +852,8 @@ def MatchExpr(e, m, tks, result = None):
         return result
     elif isinstance(e, ExprCompose):
         if not isinstance(m, ExprCompose):
+            return False
+        if len(e.args) != len(m.args):
             return False
         for a1, a2 in zip(e.args, m.args):
             if a1[1] != a2[1] or a1[2] != a2[2]:
